@@ -186,6 +186,19 @@ def shape_histories(ip):
                     bad.append(("centre_of_gravity:single-pixel:after-frames-of-other-shapes", dict(shape=[ny, nx], stack=True, got=st.tolist())))
                     return bad, n
     # (the last three pairs: padded sizes 13, 17, 19, 26, 34 - prime factors an FFT "fast length" would round away)
+    # detector counts close to the top of their integer type (a single pixel of 2^30 counts in an int32 frame, 60000 in uint16, ...)
+    for dt, val in ((np.int32, 2 ** 30), (np.uint16, 60000), (np.int64, 2 ** 52), (np.int16, 32000), (np.uint8, 250)):
+        for (ny, nx), (py, px) in (((8, 8), (5, 6)), ((40, 40), (33, 37)), ((6, 50), (4, 47))):
+            img = np.zeros((ny, nx), dtype=dt)
+            img[py, px] = val
+            img[py, px - 1] = val
+            for name, f in (("centre_of_gravity", lambda a: ip.centre_of_gravity(a)), ("brightest_pixel", lambda a: ip.brightest_pixel(a, 0.05 if ny * nx >= 60 else 0.04))):
+                got = np.asarray(f(img.copy()), float).ravel()
+                want = np.asarray(f(img.astype(float)), float).ravel()
+                n += 1
+                if got.shape != (2,) or not np.allclose(got, want, rtol=0, atol=1e-9) or not np.allclose(want, [px - 0.5, py], rtol=0, atol=1e-9):
+                    bad.append(("%s:integer-image-with-large-counts" % name, dict(dtype=np.dtype(dt).name, shape=[ny, nx], got=got.tolist(), expected=[px - 0.5, py])))
+                    return bad, n
     for (n1, p1), (n2, p2) in (((12, 1), (6, 2)), ((12, 2), (8, 3)), ((10, 3), (15, 2)), ((9, 2), (6, 3)), ((6, 3), (9, 2)), ((13, 1), (17, 1)), ((13, 2), (19, 1)), ((17, 2), (11, 3))):
         for nn, pp in ((n1, p1), (n2, p2)):
             yy, xx = np.indices((nn, nn))
